@@ -410,6 +410,9 @@ def run(cx, rep):
     # ---------------------------------------------------------------- C03.13
     rep.rule("C03.13", "no decision rests on comparing the number of input keys with the number of declared keys")
     ts_common.key_count_rule(cx, rep, "C03.13")
+    # ---------------------------------------------------------------- C03.16
+    rep.rule("C03.16", "rendering a rejected value never converts a value of unknown type to a string implicitly where it can be a symbol or an object")
+    ts_common.implicit_to_string_rule(cx, rep, "C03.16")
     # ---------------------------------------------------------------- C03.15
     rep.rule("C03.15", "a throw of parseAfterValidation on non-object member results is backed by validate() rejecting non-objects")
     parse_throw_guard_rule(fam, mod, rep, "C03.15")
